@@ -104,8 +104,12 @@ impl<T: Qcow2IoOps> Qcow2Dev<T> {
 
         let mut _compressed_data = Qcow2IoBuf::<u8>::new(aligned_len);
         let res = self.call_read(aligned_off, &mut _compressed_data).await?;
-        if res != aligned_len {
-            return Err("do_read_compressed: short read compressed data".into());
+        if res < aligned_len {
+            // The length in the descriptor is an upper bound rounded up to
+            // whole sectors and then to our block size, so it may reach past
+            // the end of the image file; the decompressor tells if data that
+            // it needs is missing.
+            _compressed_data[res..].fill(0);
         }
         let compressed_data = &_compressed_data[pad..(pad + compressed_length)];
 
